@@ -20,7 +20,7 @@ tvars == <<vars, nh, cg, ct, attAt, firstAt, act, l>>
 RA == INSTANCE RouteAction WITH Family <- "none", Defects <- {}, Big <- TRUE, c <- act
 NoAct == [lv |-> [route |-> RA!NoLevel, vhost |-> RA!NoLevel, router |-> RA!NoLevel], hin |-> [k \in RA!Names |-> RA!Absent],
           rlv |-> [route |-> RA!NoLevel, vhost |-> RA!NoLevel, router |-> RA!NoLevel], rhin |-> [k \in RA!Names |-> RA!Absent],
-          pr |-> <<>>, rr |-> "none", path |-> <<>>]
+          pr |-> <<>>, rr |-> "none", path |-> <<>>, src |-> RA!Absent, rsrc |-> RA!Absent]
 SameHdr(got, want) == \A k \in RA!Names : got[k] = want[k]
 
 TraceInit == /\ l = 1 /\ pol = [on |-> FALSE, n |-> 0, codes |-> <<>>] /\ script = <<>> /\ att = 0 /\ rem = 0 /\ st = "none"
@@ -54,7 +54,7 @@ TAtt == /\ IsEvent("att")
 (* what the host of the current attempt received: EVERY attempt, first or retried, whichever host, carries exactly
    Sem(actions, original request): the actions are applied once, relative to the original request *)
 RECURSIVE HdrTimes(_), PathTimes(_)
-HdrTimes(k)  == IF k = 0 THEN act.hin ELSE RA!SemHdr(act.lv, HdrTimes(k - 1))
+HdrTimes(k)  == IF k = 0 THEN act.hin ELSE RA!SemHdr(act.lv, HdrTimes(k - 1), [src |-> act.src, rsrc |-> RA!Absent])
 PathTimes(k) == IF k = 0 THEN act.path ELSE RA!SemRewrite(1, act.pr, act.rr, PathTimes(k - 1))
 Which == IF att <= 1 THEN "attempt-1:" ELSE "retried-attempt:"
 TRcv == /\ IsEvent("rcv")
@@ -88,7 +88,7 @@ TFin == /\ IsEvent("fin")
         /\ Expect(Ev.kind # "response" \/ ~Known(last) \/ last \in Responses \/ Ev.status >= 500, "failure-not-reported")
         (* the single reply: the last attempt's response with the response-side actions applied once *)
         /\ Expect(Ev.kind # "response" \/ last \notin Responses \/ Ev.status # Code(last)
-                  \/ SameHdr(Ev.down, RA!SemHdr(act.rlv, act.rhin)), "reply:response-headers")
+                  \/ SameHdr(Ev.down, RA!SemHdr(act.rlv, act.rhin, [src |-> act.src, rsrc |-> act.rsrc])), "reply:response-headers")
         /\ st' = "fin"
         /\ UNCHANGED <<pol, script, att, rem, last, hosts, reply, nh, cg, ct, attAt, firstAt, applied, act>>
 
